@@ -257,7 +257,14 @@ int hwloc_distances_remove_by_depth(hwloc_topology_t topology, int depth)
 int hwloc_distances_release_remove(hwloc_topology_t topology,
 				   struct hwloc_distances_s *distances)
 {
-  struct hwloc_internal_distances_s *dist = hwloc__internal_distances_from_public(topology, distances);
+  struct hwloc_internal_distances_s *dist;
+
+  if (topology->adopted_shmem_addr) {
+    errno = EPERM;
+    return -1;
+  }
+
+  dist = hwloc__internal_distances_from_public(topology, distances);
   if (!dist) {
     errno = EINVAL;
     return -1;
